@@ -172,7 +172,7 @@ func genOverlap(t *rapid.T, name string, pred map[string]string, names []string)
 		if o.Kind == "http" {
 			genHTTPAdd(t, o)
 			genHTTPCfg(t, o)
-			o.Via = ""
+			o.Via, o.Fd = "", ""
 			o.Port = rapid.SampledFrom([]string{"victim", "victim", "fresh"}).Draw(t, "oport")
 		}
 		if o.Kind == "svc" {
@@ -933,6 +933,7 @@ func checkA(c CaseA) *core.Violation {
 		from      int
 		ownBefore map[string]bool
 		lenient   bool // whether the teamserver takes the add is observed, not demanded
+		limitFd   bool // an ordinary step of the history: op.Fd is honoured (not inside schedules / overlaps / bulks, whose outcome is judged under labels of their own)
 	}
 	addPrep := func(op LOp, victimPort string) (*addCtx, bool) {
 		a := &addCtx{op: op, me: model[op.Name], before: find(ts, op.Name)}
@@ -1004,9 +1005,6 @@ func checkA(c CaseA) *core.Violation {
 				a.lenient = true // no Service block: the kind does not exist
 			}
 		}
-		if op.Fd != "" {
-			a.lenient = true
-		}
 		return a, true
 	}
 	addSend := func(a *addCtx) *core.Violation {
@@ -1030,7 +1028,7 @@ func checkA(c CaseA) *core.Violation {
 			}
 			return w.as(op.User).operate("add", packager.Type.Listener.Add, a.info)
 		}
-		if op.Fd == "" {
+		if op.Fd == "" || !a.limitFd {
 			return send()
 		}
 		// the request is served while only a few descriptors are free; the limit is back before
@@ -1671,6 +1669,9 @@ func checkA(c CaseA) *core.Violation {
 			a, ok := addPrep(op, "")
 			if !ok {
 				return nil
+			}
+			if op.Fd != "" {
+				a.limitFd, a.lenient = true, true
 			}
 			if v := addSend(a); v != nil {
 				return v
